@@ -2,7 +2,7 @@
 from fractions import Fraction as F
 from itertools import combinations, permutations, product
 
-from mc.gen.dags import all_dags, subsets
+from mc.gen.dags import all_dags, iso_classes, subsets
 from mc.gen.tables import bn_from_desc, family_descs
 from mc.ref.graphs import G
 from mc.ref.semigraphoid import all_statements, canon, closure
@@ -13,7 +13,7 @@ RULE = ("E1: (a) every ordered pair of labelled DAGs on <=4 nodes for is_iequiva
         "v-structures with colliders), cross-checked with equality of the full d-separation relation for n<=3; "
         "(b) every set of assertions over a 3-variable universe (512) and all sets of size<=k over 4 variables for "
         "closure/entails/is_equivalent vs the least fixed point of the semi-graphoid axioms; (c) joint tables on 3 "
-        "variables (fingerprint, product forms of every 3-node DAG, xor/context-specific): check_independence for every "
+        "variables (fingerprint, product forms of every 3-node DAG, xor/context-specific; event sets of two variables with conditioning sets of size 0-2 on 4- and 5-variable tables): check_independence for every "
         "(x, y | Z-set) and value context, get_independencies, minimal_imap for every variable order, is_imap both ways. "
         "non-trivial = distinct cases whose reference answer is 'equivalent'/'independent' or closure adds statements")
 BOUNDS = {"quick": "(a) n<=4: 543^2 pairs; (b) 3 vars: all 512 sets, 4 vars: sets of size<=2 (1540); (c) 3 variables cards (2,2,2),(2,3,2)",
@@ -45,6 +45,13 @@ def groups(tier, seed):
             out.append({"part": "jpd", "bn": d})
     for kind in ("xor", "ctx", "pairdep", "xor3"):
         out.append({"part": "jpd", "special": kind})
+    # event SETS (two variables on one side) with conditioning sets of size 0-2 need four / five variables
+    for d in family_descs(4, iso_classes(4), [(2, 3, 2, 2)], fams=((1, 2, 1),), fps=(0,)):
+        out.append({"part": "jpdsets", "bn": d})
+    c5 = iso_classes(5)
+    for e in (c5 if tier == "thorough" else c5[seed % 6::6]):
+        for d in family_descs(5, [e], [(2, 2, 3, 2, 2)], fams=((1, 2, 1),), fps=()):
+            out.append({"part": "jpdsets", "bn": d})
     return out
 
 
@@ -80,6 +87,8 @@ def run_group(g, tier):
         sts = all_statements("ABCD")
         for s in g["sets"]:
             _clo(st, "ABCD", s, sts)
+    elif g["part"] == "jpdsets":
+        _jpdsets(st, g)
     else:
         _jpd(st, g)
     return st
@@ -93,6 +102,10 @@ def replay(case):
     elif p in ("clo3", "clo4"):
         u = "ABC" if p == "clo3" else "ABCD"
         _clo(st, u, case["set"], all_statements(u))
+    elif p == "jpdsets":
+        _jpdsets(st, case["g"])
+        st.violations = [v for v in st.violations if v["site"] == case.get("site") and v["case"].get("E1") == case.get("E1") and v["case"].get("E2") == case.get("E2")
+                         and v["case"].get("Z") == case.get("Z")]
     else:
         _jpd(st, case["g"])
         st.violations = [v for v in st.violations if v["site"] == case.get("site")]
@@ -258,6 +271,66 @@ def _indep(t, cards, x, y, Z, ctx=None):
         if p * pz[z] != pxz[(a,) + z] * pyz[(b,) + z]:
             return False
     return True
+
+
+def _indep_sets(t, n, X, Y, Z):
+    """exact JOINT independence of the variable sets X and Y given Z: P(X,Y,Z) P(Z) == P(X,Z) P(Y,Z) everywhere"""
+    def marg(vs):
+        out = {}
+        for k, p in t.items():
+            kk = tuple(k[v] for v in vs)
+            out[kk] = out.get(kk, 0) + p
+        return out
+    X, Y, Z = list(X), list(Y), list(Z)
+    pxyz, pxz, pyz, pz = marg(X + Y + Z), marg(X + Z), marg(Y + Z), marg(Z)
+    for k, p in pxyz.items():
+        a, b, z = k[:len(X)], k[len(X):len(X) + len(Y)], k[len(X) + len(Y):]
+        if p * pz[z] != pxz[a + z] * pyz[b + z]:
+            return False
+    return True
+
+
+def _jpdsets(st, g):
+    """check_independence on event SETS: whatever reading of a set statement the library implements (pairwise or joint),
+    True requires every cross pair to be independent given Z, and False requires the sets not to be jointly independent"""
+    from pgmpy.factors.discrete import JointProbabilityDistribution as JPD
+
+    ref = bn_from_desc(g["bn"])
+    n = ref.n
+    cards = tuple(ref.card[v] for v in range(n))
+    t = ref.joint().table
+    names = NAMES[:n] if len(NAMES) >= n else list("ABCDE")[:n]
+    vals = [float(t[k]) for k in product(*[range(c) for c in cards])]
+    jpd = JPD(list(names), list(cards), vals)
+    st.states += 1
+    for E1 in subsets(range(n), 2):
+        if not E1:
+            continue
+        rest1 = [v for v in range(n) if v not in E1]
+        for E2 in subsets(rest1, 2):
+            if not E2 or len(E1) + len(E2) < 3:
+                continue
+            rest2 = [v for v in rest1 if v not in E2]
+            for Z in subsets(rest2, 2):
+                pair_ok = all(_indep_sets(t, n, [x], [y], Z) for x in E1 for y in E2)
+                joint_ok = _indep_sets(t, n, E1, E2, Z)
+                c = {"part": "jpdsets", "g": g, "site": "check_independence(sets)", "E1": list(E1), "E2": list(E2), "Z": list(Z)}
+                st.evals += 1
+                st.transitions += 1
+                if pair_ok:
+                    st.nt((E1, E2, Z))
+                try:
+                    got = bool(jpd.check_independence([names[v] for v in E1], [names[v] for v in E2], [names[v] for v in Z] if Z else None,
+                                                      condition_random_variable=bool(Z)))
+                except Exception as ex:
+                    st.violation("check_independence(sets)", "exception", c, repr(ex)[:200])
+                    continue
+                st.compared += 1
+                if got and not pair_ok:
+                    st.violation("check_independence(sets)", "wrong-verdict", c, True, "some cross pair is dependent given Z")
+                elif not got and joint_ok:
+                    st.violation("check_independence(sets)", "wrong-verdict", c, False, "the sets are jointly independent given Z")
+                st.outcome((got, pair_ok, joint_ok))
 
 
 def _jpd(st, g):
